@@ -7,7 +7,7 @@
    The same model call impl_apply also denotes (correspondence, Corr/C03.v): the IOAPI wrapper
    ioapi_base.applyAlongDimensions on the data variables, its VGLVLS recomputation (impl_apply on a
    (lay, nv) bounds variable) and the string forms reduce_dim(f, 'dim,func') = impl_apply f [(dim, func)],
-   convolve_dim(f, 'dim,mode,w...') = impl_apply f [(dim, FConv mode w)] followed by Corr's fill_var. *)
+   convolve_dim(f, 'dim,mode,w...') = impl_apply f [(dim, FConv mode w)]. *)
 From PNC Require Import Base.Util Base.NdApply Model.Apply Proofs.NdApplyProofs Proofs.ApplyProofs Proofs.ApplyIntProofs.
 Require Import QArith Permutation.
 Local Close Scope Q_scope.
